@@ -235,6 +235,17 @@ class CallMixin:
             raise ContractError('spec %s arity' % sf.name)
         cargs = [coerce(a, t) for a, t in zip(args, pts)]
         zs = [a.z for a in cargs]
+        if not sf.heap and getattr(sf, 'heap_checked', None) is None and not self.dry_running:
+            # a spec function whose body reads the heap must be declared heap-dependent: its value is a function of the heap arrays it
+            # reads (otherwise its defining axiom, instantiated in two different heaps, would be inconsistent)
+            sf.heap_checked = True
+            try:
+                keys = self.spec_heap_keys(sf, pts, rt, st)
+            except Unsupported:
+                keys = []
+            sf.heap_keys = None
+            if keys:
+                raise ContractError('spec function %s reads the heap (%s): declare it with @P.spec(heap=True)' % (sf.name, keys))
         if sf.heap:
             if sf.name in self.dry_running:
                 return SV(rt, rt.fresh(fresh_name('dry')))
@@ -865,16 +876,34 @@ class CallMixin:
             return SV(v.t.nonnull(), v.z)
         return v
 
+    def args_fit(self, c, args, kw):
+        for i, (nm, t, hasd, d) in enumerate(self.param_specs(c)):
+            v = args[i] if i < len(args) else kw.get(nm)
+            if v is None or isinstance(t, T._Opaque):
+                continue
+            try:
+                coerce(v, t)
+            except Unsupported:
+                return False
+        return True
+
     # ------------------------------------------------------------------ method calls
     def call_method(self, f, n, st):
         src = ast.unparse(f)
         P = self.eng.prop
         if src in self.c.calls:
-            cc = P.contracts[self.c.calls[src]]
-            args, kw = self.args_of(n, st)
-            if list(cc.params)[:1] == ['self'] and not (isinstance(f.value, ast.Name) and f.value.id not in st.locals):
-                args = [self.ev(f.value, st)] + args
-            return self.call_contract(cc, args, kw, st, n)
+            target = self.c.calls[src]
+            args0, kw = self.args_of(n, st)
+            # overloads: a list of contracts, the first whose parameter types fit the (static) argument types is the callee
+            cands = target if isinstance(target, (list, tuple)) else [target]
+            for ci, cn in enumerate(cands):
+                cc = P.contracts[cn]
+                args = args0
+                if list(cc.params)[:1] == ['self'] and not (isinstance(f.value, ast.Name) and f.value.id not in st.locals):
+                    args = [self.ev(f.value, st)] + args0
+                if ci + 1 < len(cands) and not self.args_fit(cc, args, kw):
+                    continue
+                return self.call_contract(cc, args, kw, st, n)
         # logging calls are skipped after evaluating the arguments (assumption A6)
         root = f.value
         while isinstance(root, ast.Attribute):
